@@ -119,6 +119,8 @@ MUTANTS = [
     ("sparse_support_one_sided", "bempp_cl/core/sparse_assembler.py", "support = domain.support * dual_to_range.support", "support = domain.support", 0, ["C13", "C04"]),
     ("l2_kernel_trial_index", NK, "* local_trial_fun_values[dim_index, trial_index, quad_index]\n                        * quad_weights[quad_index]\n                        * integration_element\n                    )\n\n\n@_numba.jit(nopython=True, parallel=False, error_model=\"numpy\", fastmath=True, boundscheck=False)\ndef _vector_grad_product_kernel", "* local_trial_fun_values[dim_index, test_index, quad_index]\n                        * quad_weights[quad_index]\n                        * integration_element\n                    )\n\n\n@_numba.jit(nopython=True, parallel=False, error_model=\"numpy\", fastmath=True, boundscheck=False)\ndef _vector_grad_product_kernel", 0, ["C13"]),
     ("gf_evaluate_wrong_dofs", "bempp_cl/api/assembly/grid_function.py", "return _np.tensordot(element_values, self.grid_coefficients[global_dofs], axes=([1], [0]))", "return _np.tensordot(element_values, self.coefficients[global_dofs], axes=([1], [0]))", 0, ["C13"]),
+    ("point_map_slots_by_element", "bempp_cl/api/space/space.py", "data[elem_index * nlocal : (1 + elem_index) * nlocal] = basis_values.ravel()", "data[elem * nlocal : (1 + elem) * nlocal] = basis_values.ravel()", 0, ["C13", "C17"]),
+    ("efield_potential_basis_by_element", "bempp_cl/core/numba_kernels.py", "basis_functions[element_index, fun_index, :, quad_point_index]", "basis_functions[element, fun_index, :, quad_point_index]", 0, ["C13", "C08"]),
     ("scalar_proj_wrong_vertex", "bempp_cl/api/assembly/grid_function.py", "+ points[1] * grid_data.vertices[j, grid_data.elements[2, index]]", "+ points[1] * grid_data.vertices[j, grid_data.elements[1, index]]", 0, ["C13"]),
     ("scalar_proj_normal_unflipped", "bempp_cl/api/assembly/grid_function.py", "                grid_data.normals[index] * normal_multipliers[index],\n", "                grid_data.normals[index],\n", 0, ["C13"]),
     ("vertex_average_unweighted", "bempp_cl/api/assembly/grid_function.py", "values[:, index] += local_values[:, i] * element_area", "values[:, index] += local_values[:, i]", 0, ["C13"]),
